@@ -41,6 +41,10 @@ mod parser;
 #[cfg(test)]
 mod tests;
 
+#[cfg(dmntk_verif)]
+pub use lalr::TokenType as VerifTokenType;
+#[cfg(dmntk_verif)]
+pub use lexer::verif;
 pub use parser::{
   parse_boxed_expression, parse_context, parse_expression, parse_longest_name, parse_name, parse_textual_expression, parse_textual_expressions,
   parse_unary_tests,
